@@ -256,3 +256,16 @@ Theorem C08_multi_bounds_order_independent : forall (V : Type) c (dirs dirs' : l
   get_bounds_multi dirs = get_bounds_multi dirs'.
 Proof. exact (@bounds_multi_order). Qed.
 Print Assumptions C08_multi_bounds_order_independent.
+
+(* ---- the hypothesis FilesInv of the theorems above is not an assumption about well-behaved data: it
+   holds for the files of every channel the writer (model of C01/C05/C06) produces by ANY history of
+   public API calls, in every mode -- so every coherence theorem of this file applies to every
+   recording made with DigitalRFWriter.  (Configuration hypotheses as enforced by the constructor.) *)
+From DRF Require Import Model.WriterCore Model.PyWriter Proofs.WriterInv Proofs.RoundTrip Proofs.PyApiHistory Proofs.ApiRoundTrip.
+
+Theorem C08_writer_channels_satisfy_FilesInv : forall c ops,
+  vcfg c -> 0 < c_sc c -> (c_sc c * 1000) mod c_fc c = 0 -> Forall api_arg_ok ops ->
+  (c_chunk c = true \/ c_cont c = true) ->
+  FilesInv (rc_of c) (map (to_rfile c) (all_files (p_w (fold_left (api_state c) ops py_init)))).
+Proof. exact api_files_reader_invariant. Qed.
+Print Assumptions C08_writer_channels_satisfy_FilesInv.
